@@ -49,6 +49,7 @@ m_nondecreasing = z3.Function('m_nondecreasing', Asg, Int, Bool)
 mvar = z3.Function('mvar', Int, Int, Int, Int)             # identifier of the pair (u,v) in mapping group g
 gorder = z3.Function('gorder', Int, Int)                   # abstract graph: number of vertices
 gnedges = z3.Function('gnedges', Int, Int)                 # number of edges
+navail_p = z3.Function('navail_p', Int, Int, Int)          # number of k-clauses over n variables compatible with the planted assignments of the call (uninterpreted)
 gedge1 = z3.Function('gedge1', Int, Int, Int)              # e-th edge (as enumerated by G.edges()): first endpoint
 gedge2 = z3.Function('gedge2', Int, Int, Int)              # second endpoint
 gdom = z3.Function('gdom', Int, Int)                        # domain size of mapping group g
@@ -116,6 +117,21 @@ ohaszero = z3.Function('ohaszero', OSeq, Bool)
 onormal = z3.Function('onormal', OSeq, Bool)          # every constraint: coefficients >= 0, op in {>=, ==}
 
 
+# --- substitution / distribution (apply_substitution): gadget function, clause distribution ----------------------
+CTab = z3.ArraySort(Int, CSeq)
+gad = z3.Function('gad', Int, Int, CSeq)              # gad(sid, lit): the CNF the gadget function `sid` returns for a literal (pure function)
+cdist_tab = z3.Function('cdist_tab', CTab, Int, ISeq, CSeq)   # distribution (cartesian product, each tuple flattened) of [T[l] for l in clause], python indexing into a table of length L
+cdist = z3.Function('cdist', Int, ISeq, CSeq)         # the same over [gad(sid, l) for l in clause]
+cdistall = z3.Function('cdistall', Int, CSeq, Int, CSeq)      # cdist of the first t clauses, concatenated
+cind = z3.Function('cind', Asg, Int, ISeq, Bool)      # some literal l of the clause has sat(a, gad(sid, l))
+satind = z3.Function('satind', Asg, Int, CSeq, Int, Bool)     # cind for each of the first t clauses
+dbad = z3.Function('dbad', CTab, Int, ISeq, Int, Int)         # Skolem witness: a position where the table and gad differ
+aind = z3.Function('aind', Asg, Int, Asg)             # induced assignment: variable v is true iff the gadget CNF gad(sid, v) holds under a
+lwit = z3.Function('lwit', Asg, Int, Asg, CSeq, Int)  # Skolem witness: a literal on which gadget and assignment b disagree
+lmax = z3.Function('lmax', Int, CSeq, Int, Int)       # Skolem witness: a literal whose gadget attains the largest variable of the distribution
+lzero = z3.Function('lzero', Int, CSeq, Int, Int)     # Skolem witness: a literal whose gadget contains a zero literal
+
+
 def cmp_op(op, lhs, rhs):
     S = z3.StringVal
     return z3.If(op == S('>='), lhs >= rhs, z3.If(op == S('=='), lhs == rhs, z3.If(op == S('<='), lhs <= rhs,
@@ -128,7 +144,8 @@ FUNCS = dict(tlen=tlen, tcoef=tcoef, tlit=tlit, tunit=tunit, tnegc=tnegc, tset=t
              ilen=ilen, iget=iget, inil=inil, isnoc=isnoc, iapp=iapp, ineg=ineg, haszero=haszero,
              maxof=maxof, minof=minof, maxabs=maxabs, lit_true=lit_true, count=count, ctrue=ctrue,
              clen=clen, cget=cget, cnil=cnil, csnoc=csnoc, capp=capp, ctake=ctake, combs=combs, sat=sat,
-             cmaxabs=cmaxabs, pow2=pow2, chaszero=chaszero, psum=psum, card2=card2, isperm=isperm, sortedperm=sortedperm, invperm=invperm, imapsub=imapsub, zpos=zpos, mpos=mpos, rnbrs=rnbrs, apseq=apseq, negunits=negunits, idxcombs=idxcombs, iflip1=iflip1, iflips=iflips, neqprefix=neqprefix, signvecs=signvecs, sprod=sprod, smul=smul, pfilter=pfilter)
+             cmaxabs=cmaxabs, pow2=pow2, chaszero=chaszero, psum=psum, card2=card2, isperm=isperm, sortedperm=sortedperm, invperm=invperm, imapsub=imapsub, zpos=zpos, mpos=mpos, rnbrs=rnbrs, apseq=apseq, negunits=negunits, idxcombs=idxcombs, iflip1=iflip1, iflips=iflips, neqprefix=neqprefix, signvecs=signvecs, sprod=sprod, smul=smul, pfilter=pfilter,
+             gad=gad, cdist_tab=cdist_tab, cdist=cdist, cdistall=cdistall, cind=cind, satind=satind, aind=aind)
 
 
 def zmax(a, b):
@@ -269,6 +286,33 @@ def _on_terms(terms_by_decl):
     for (s, k) in terms_by_decl.get('combs', []):
         out.append(cmaxabs(combs(s, k)) <= maxabs(s))
         out.append(z3.Implies(z3.Not(haszero(s)), z3.Not(chaszero(combs(s, k)))))
+    sids = []
+    for nm in ('cdistall', 'cdist', 'gad'):
+        for args in terms_by_decl.get(nm, []):
+            if not any(args[0].eq(x) for x in sids):
+                sids.append(args[0])
+    for (T, L, c) in terms_by_decl.get('cdist_tab', []):
+        for sid in sids:
+            # Dist.lean cdist_tab_congr: equal components give equal distributions; contrapositive with a Skolem position
+            j = dbad(T, L, c, sid)
+            l = iget(c, j)
+            out.append(z3.Implies(cdist_tab(T, L, c) != cdist(sid, c),
+                                  z3.And(0 <= j, j < ilen(c),
+                                         z3.Implies(l >= 0, z3.Select(T, l) != gad(sid, l)),
+                                         z3.Implies(l < 0, z3.Select(T, L + l) != gad(sid, l)))))
+    for (sid, C, t) in terms_by_decl.get('cdistall', []):
+        # Subst.lean cmaxabs_cdistall / chaszero_cdistall: the largest variable (a zero literal) of the distributed clauses
+        # comes from the gadget CNF of some literal of C
+        D = cdistall(sid, C, t)
+        lm, lz = lmax(sid, C, t), lzero(sid, C, t)
+        out.append(z3.Implies(z3.And(0 <= t, t <= clen(C)),
+                              z3.Or(cmaxabs(D) == 0,
+                                    z3.And(zabs(lm) <= cmaxabs(C), z3.Implies(z3.Not(chaszero(C)), lm != 0), cmaxabs(D) <= cmaxabs(gad(sid, lm))))))
+        out.append(z3.Implies(z3.And(0 <= t, t <= clen(C), chaszero(D)),
+                              z3.And(zabs(lz) <= cmaxabs(C), z3.Implies(z3.Not(chaszero(C)), lz != 0), chaszero(gad(sid, lz)))))
+        # Dist.lean cdistall_zero / cdistall_succ
+        out.append(z3.Implies(t == 0, cdistall(sid, C, t) == cnil))
+        out.append(z3.Implies(z3.And(0 <= t, t < clen(C)), cdistall(sid, C, t + 1) == capp(cdistall(sid, C, t), cdist(sid, cget(C, t)))))
     for (c, i) in terms_by_decl.get('cget', []):
         out.append(z3.Implies(z3.And(0 <= i, i < clen(c)), maxabs(cget(c, i)) <= cmaxabs(c)))
         out.append(z3.Implies(z3.And(0 <= i, i < clen(c), z3.Not(chaszero(c))), z3.Not(haszero(cget(c, i)))))
@@ -547,6 +591,25 @@ def _sem_on_terms(asgs, terms_by_decl):
             # L6 PARITY (Parity.lean parity_main): the sign patterns of product d over non-zero literals
             out.append(z3.Implies(z3.And(z3.Or(d == 1, d == -1), z3.Not(haszero(l)), t == pow2(ilen(l))),
                                   sat(a, pfilter(l, d, t)) == ((count(a, l) % 2 == 1) == (d == 1))))
+        for (sid, c) in terms_by_decl.get('cdist', []):
+            # L8 (Dist.lean sat_cdist): the distributed clauses hold iff some literal's gadget CNF holds
+            out.append(sat(a, cdist(sid, c)) == cind(a, sid, c))
+        for (sid, C, t) in terms_by_decl.get('cdistall', []) + terms_by_decl.get('satind', [])[:0]:
+            # L9 (Subst.lean sat_cdistall): by induction over the clauses
+            out.append(z3.Implies(z3.And(0 <= t, t <= clen(C)), sat(a, cdistall(sid, C, t)) == satind(a, sid, C, t)))
+        for (a0, sid, C, t) in [x for x in terms_by_decl.get('satind', []) if x[0].eq(a)]:
+            for b in asgs:
+                if b.eq(a):
+                    continue
+                # L9 (Subst.lean satind_eq_sat): if the gadget CNF of every literal of C holds under a exactly when the literal
+                # is true under b, the distributed formula holds under a iff C holds under b; contrapositive, Skolem literal
+                l = lwit(a, sid, b, C)
+                out.append(z3.Implies(z3.And(t == clen(C), z3.Not(chaszero(C)), satind(a, sid, C, t) != sat(b, C)),
+                                      z3.And(l != 0, zabs(l) <= cmaxabs(C), sat(a, gad(sid, l)) != lit_true(b, l))))
+        for (b0, l) in terms_by_decl.get('lit_true', []):
+            if z3.is_app(b0) and b0.decl().name() == 'aind' and b0.arg(0).eq(a):
+                # definition of the induced assignment on variables
+                out.append(z3.Implies(l > 0, lit_true(b0, l) == sat(a, gad(b0.arg(1), l))))
         for (s, k) in terms_by_decl.get('combs', []):
             # L4 BLAST (Blast.lean): 1<=k<=len s  ->  all k-subsets hit  <->  count >= len-k+1
             out.append(z3.Implies(z3.And(1 <= k, k <= ilen(s)),
